@@ -465,6 +465,7 @@ def run_verus(path, rlimit=None, extra=None, timeout=600):
             continue
         if d.get("level") != "error" or not d.get("spans"):
             continue
+        code = (d.get("code") or {}).get("code") if isinstance(d.get("code"), dict) else None
         prim = [s for s in d["spans"] if s.get("is_primary")] or d["spans"]
         sp = prim[0]
         line = sp["line_start"]
@@ -487,16 +488,22 @@ def run_verus(path, rlimit=None, extra=None, timeout=600):
             if m:
                 fn = m.group(1)
                 break
-        r.diags.append(dict(message=d["message"], line=line, text=text.strip(), label=label, fn=fn,
+        r.diags.append(dict(message=d["message"], line=line, text=text.strip(), label=label, fn=fn, code=code,
                             rendered=d.get("rendered", ""), all_lines=sorted(set(s["line_start"] for s in d["spans"]))))
     if not r.ok and not r.diags and r.undecided is None:
         r.undecided = "verus failed without a verification diagnostic"
     # front-end (rustc / VIR) errors are 'undecided', not violations
     for d in r.diags:
+        if d.get("code") in BORROW_CODES:
+            continue      # handled by the engine (lock re-entry under the R8 guard encoding)
         if not any(k in d["message"] for k in VERIFICATION_MESSAGES):
             r.undecided = "non-verification error from verus: %s (line %d)" % (d["message"], d["line"])
     return r
 
+
+# rustc borrow-check errors: in units that encode a lock guard as `&mut` borrow of the owner (R8), taking the lock a second time
+# while the first guard is alive is exactly such an error
+BORROW_CODES = ("E0499", "E0502", "E0500", "E0501", "E0503", "E0506")
 
 VERIFICATION_MESSAGES = (
     "postcondition not satisfied", "precondition not satisfied", "assertion failed",
